@@ -9,7 +9,7 @@
    every state reachable from init_world (thread_stack_restored). *)
 From Coq Require Import ZArith List Bool.
 Require Import SC3.model.Cond SC3.model.Routine SC3.model.RtWake.
-Require Import SC3.proofs.C11_stack SC3.proofs.C11_machine SC3.proofs.C11_cond SC3.proofs.C11_final SC3.proofs.C11_rt SC3.proofs.C11_whole.
+Require Import SC3.proofs.C11_stack SC3.proofs.C11_machine SC3.proofs.C11_cond SC3.proofs.C11_final SC3.proofs.C11_rt SC3.proofs.C11_whole SC3.proofs.C11_fuel.
 Import ListNotations.
 
 (* the documented table: every operation in every state (x = the record of routine r) *)
@@ -98,6 +98,30 @@ Proof. exact thread_stack_restored_step_l. Qed.
 (* the same nested-call induction, for nested next() at any depth *)
 Theorem nested_next_restores_caller : forall defs fuel, CN (next_ patched defs fuel).
 Proof. exact next_ok. Qed.
+
+(* nested next() terminates: with more fuel than routines (indeed: than routines that are not running) the
+   result of next() - world and outcome - does not depend on the fuel, for every program, argument and state
+   satisfying the invariant; so the model's stand-in for over-deep recursion (fuel exhaustion, ERecursion) is
+   unreachable under that bound, and whole histories do not depend on the fuel either.  (Every nested call
+   enters a routine that was not running and a running routine refuses re-entry, so the nesting depth is
+   bounded by the number of routines.) *)
+Theorem nested_next_terminates_fuel_independent :
+  (forall defs f1 f2 r v w, good w -> (length (rts w) < f1)%nat -> (length (rts w) < f2)%nat ->
+     next_ patched defs f1 r v w = next_ patched defs f2 r v w) /\
+  (forall defs n f1 f2, (n <= f1)%nat -> (n <= f2)%nat -> agree n (next_ patched defs f1) (next_ patched defs f2)) /\
+  (forall defs f1 f2 ops w, quiescent w -> (length (rts w) < f1)%nat -> (length (rts w) < f2)%nat ->
+     run patched defs f1 ops w = run patched defs f2 ops w).
+Proof. exact (conj next_fuel_independent_l (conj next_fuel_agree run_fuel_independent_l)). Qed.
+
+(* the bound is sharp enough to matter: four routines nested (0 -> 1 -> 2 -> 3) run identically with fuel 5
+   and fuel 50, while fuel 3 is too little (routine 2 gets the stand-in RecursionError for its nested call) *)
+Example fuel_bound_example :
+  let defs := [mkDef Gen false [ARelay 1 VNone]; mkDef Gen false [ARelay 2 VNone];
+               mkDef Gen false [ARelay 3 VNone]; mkDef Gen false [AYield (VInt 7)]] in
+  map fst (snd (run patched defs 5 [OCall (CNext 0 VNone)] (init_world defs []))) = [Ret (VInt 7)] /\
+  run patched defs 5 [OCall (CNext 0 VNone)] (init_world defs []) = run patched defs 50 [OCall (CNext 0 VNone)] (init_world defs []) /\
+  map fst (snd (run patched defs 3 [OCall (CNext 0 VNone)] (init_world defs []))) = [Exc ERecursion].
+Proof. vm_compute. repeat split. Qed.
 
 (* F12: on the code as released a routine calling its own next() leaves main.current_tt = None,
    and afterwards can stop itself from inside; a stale terminal value survives reset() *)
@@ -336,5 +360,6 @@ Print Assumptions cell_machine_wakeup_conservation.
 Print Assumptions cond_resume_exactly_once_after_signal.
 Print Assumptions cond_never_before.
 Print Assumptions flowvar_single_assignment.
+Print Assumptions nested_next_terminates_fuel_independent.
 Print Assumptions one_pending_wakeup_per_routine.
 Print Assumptions rt_wakeup_restores_thread_stack.
